@@ -33,7 +33,7 @@ def run(ctx):
     ctx.discharged = sum(1 for b in blocks if b == "closed")
     if ctx.discharged != ctx.obligations:
         ctx.violation("proof:assumptions", "a C16 theorem depends on axioms: %r" % blocks, {"broken": "Print Assumptions", "output": out[-800:]}, found_input=False)
-    n = 400 if quick else 6000
+    n = 400 if quick else 2400
     levels = ["-O0", "-O3"] if quick else ["-O0", "-O1", "-O2", "-O3"]
     def progs():
         for i in range(n):
